@@ -44,6 +44,24 @@ Streams added for the classes of breakage the first generators under-sampled (ev
   canonicalisation call, which answers every request in a grand-child of its own with a new
   canonicaliser — "a function of the graph" in the literal sense, with no instance-, class- or
   module-level history.  A failing history is minimised (each trial again in a history-free process).
+
+Streams added for anchored code the quick tier never executed (coverage/C08.json), same gates:
+
+* `stream_direct` — `NautyCanonicalizer` built directly, as documented (node_attrs / edge_attrs optional, the
+  constructor default is none; `_initial_partition` without node attributes), with its options return_perm /
+  return_aut / remap_aut / return_orbits / max_depth.  The IR correspondence runs for every configuration whose lists
+  are sub-sequences of the model's (the model sees the graph with the left-out attributes overwritten by a
+  constant); faithfulness by `spec.isRelabelling`, invariance by `spec.covEq` on the projections, kernel agreement
+  of `graph_signature` by the proven engine on the configured keys; max_depth against the leaf depths of the
+  model's search tree.  The automorphism / orbit lists themselves are outside the property (recorded only);
+* `stream_classes` — nx.DiGraph / nx.MultiGraph / nx.MultiDiGraph inputs (class docstring: the class of the input is
+  preserved): relabelling predicate evaluated in the harness (the Lean model has simple undirected graphs only),
+  isomorphism decided by the proven engine on an edge-subdivision encoding;
+* option variants `empty` (node_attrs=[]: WL seeded by `element` alone, Morgan by the primes alone, the exact
+  search with a signature that covers no node attribute) and `superset-list` (a list-valued attribute in
+  node_attrs); the input graph is compared with a snapshot taken before the call; the remaining public surface
+  of the value objects (CanonicalGraph.original_graph, canonicalise_graphs, graph_canonical_hash, SynGraph.canonical /
+  canon=False, comparison with non-wrappers), SynRule.from_gml and the GML value object CanonicalRule.
 """
 import ast
 import copy
@@ -99,7 +117,7 @@ NODE_DEFAULT = {"element": "", "charge": 0, "aromatic": False, "hcount": 0}
 EDGE_DEFAULT = {"order": 0, "standard_order": 0}
 MAX_VIOL = 6
 
-ATTR_DEFAULT = {**NODE_DEFAULT, **EDGE_DEFAULT, "atom_map": 0}
+ATTR_DEFAULT = {**NODE_DEFAULT, **EDGE_DEFAULT, "atom_map": 0, "kind": ""}
 
 _canon = {}
 
@@ -110,15 +128,15 @@ def opts_key(opts):
 
 def node_keys_of(opts):
     """Node attributes the signature covers under these options (the keys of the node sort key)."""
-    return list(opts["node_key"]) if opts and opts.get("node_key") else NODE_KEYS
+    return list(opts["node_key"]) if opts and opts.get("node_key") is not None else NODE_KEYS
 
 
 def edge_keys_of(opts):
-    return list(opts["edge_key"]) if opts and opts.get("edge_key") else EDGE_KEYS
+    return list(opts["edge_key"]) if opts and opts.get("edge_key") is not None else EDGE_KEYS
 
 
 def custom_keys(opts):
-    return bool(opts and (opts.get("node_key") or opts.get("edge_key")))
+    return bool(opts and (opts.get("node_key") is not None or opts.get("edge_key") is not None))
 
 
 def make_canoniser(be, twin=False, opts=None):
@@ -134,10 +152,10 @@ def make_canoniser(be, twin=False, opts=None):
     for k in ("node_attrs", "wl_iterations", "morgan_radius"):
         if k in opts:
             kw[k] = list(opts[k]) if k == "node_attrs" else opts[k]
-    if opts.get("node_key"):
+    if opts.get("node_key") is not None:  # [] = a signature that covers no node attribute
         nk = list(opts["node_key"])
         kw["node_sort_key"] = lambda n, d, nk=nk: tuple(d.get(k, ATTR_DEFAULT[k]) for k in nk)
-    if opts.get("edge_key"):
+    if opts.get("edge_key") is not None:
         ek = list(opts["edge_key"])
         kw["edge_sort_key"] = lambda u, v, d, ek=ek: (tuple(sorted((u, v))),) + tuple(d.get(k, ATTR_DEFAULT[k]) for k in ek)
     return GraphCanonicaliser(backend=be, **kw)
@@ -278,6 +296,7 @@ class Obs:
         self.error = None
         self.mapping = None
         try:
+            before0 = norm_graph(g) if deep else None
             self.sig_plain = gc.canonical_signature(g)
             if not deep:
                 self.gt = g
@@ -290,6 +309,8 @@ class Obs:
             self.cg = gc._make_canonical_graph(self.gt)
             self.text = gc._serialise(self.cg)
             self.sig = gc.canonical_signature(self.gt)
+            # (canonical_signature canonicalises g itself: what the call does to its argument shows on g)
+            self.input_changed = norm_graph(g) != before0
         except Exception as e:  # an exception is an outcome, mapped onto an enum
             self.error = type(e).__name__
             return
@@ -348,8 +369,8 @@ def with_opts(case, opts):
 def check_single(ctx, batch, be, g, tag, deep=True, twin=False, opts=None):
     """(1), (1b), (2) for one graph and one back-end.  Returns the Obs.  With custom sort keys
     (`opts.node_key` / `opts.edge_key`) the model serialisation (default keys) is not compared."""
+    case = with_opts({"kind": "single", "backend": be, "graph": dump(g), "twin": twin}, opts)  # (before the first call: the graph as it was handed over)
     ob = Obs(be, g, twin, deep, opts)
-    case = with_opts({"kind": "single", "backend": be, "graph": dump(g), "twin": twin}, opts)
     classes = input_classes(g)
     ctx.count(f"single:{be}:{'deep' if deep else 'light'}")
     if opts:
@@ -374,6 +395,11 @@ def check_single(ctx, batch, be, g, tag, deep=True, twin=False, opts=None):
         return ob
     if ob.sig_plain != ob.sig:
         ctx.violation("signature depends on an attribute the signature does not cover (node tag)", case, {"stream": tag}, classes=classes)
+        return ob
+    if getattr(ob, "input_changed", False):
+        ob.error = "input-changed"
+        ctx.violation("canonical graph is not the input relabelled by a bijection onto 1..N with all attributes preserved",
+                      case, {"stream": tag, "reason": "canonicalisation changed the graph it was given (attributes added, removed or rewritten in place)"}, classes=classes)
         return ob
     if ob.mapping is None or not ids_ok(ob.cg):
         ob.error = "no-bijection"
@@ -496,7 +522,7 @@ def report_pair(ctx, batch, be, x, y, iso, obx, oby, tag, classes, opts=None):
                       case, {"stream": tag, "sig": obx.sig_plain, "ser_x": obx.text[:400]}, classes=classes)
 
 
-def check_pair(ctx, batch, x, y, tag, backends=BACKENDS, twin=False, opts=None):
+def check_pair(ctx, batch, x, y, tag, backends=BACKENDS, twin=False, opts=None, extras=None):
     """(3)/(4)/(5) on one pair, isomorphism (on the attributes the signature covers under `opts`)
     decided by the proven engine."""
     classes = sorted(set(input_classes(x) + input_classes(y)))
@@ -539,12 +565,17 @@ def check_pair(ctx, batch, x, y, tag, backends=BACKENDS, twin=False, opts=None):
                             ctx.violation("exact back-end: isomorphic graphs have different canonical graphs on the covered attributes (spec.covEq)",
                                           case, {"stream": tag}, classes=classes)
                     batch.add({"cmd": "spec.covEq", "g": dump(a.cg), "h": dump(b.cg)}, on_cov)
-            wrappers(ctx, be, x, y, eq, iso, tag, classes, twin, opts)
+            wrappers(ctx, be, x, y, eq, iso, tag, classes, twin, opts, extras)
     batch.add(iso_req(x, y, opts), on_iso)
 
 
-def wrappers(ctx, be, x, y, sig_eq, iso, tag, classes, twin=False, opts=None):
-    """(5) CanonicalGraph / SynGraph equality and hash follow the signatures."""
+_wrapper_calls = [0]
+WRAPPER_EXTRAS_EVERY = 17  # (coprime with the number of back-ends: the extras rotate through them)
+
+
+def wrappers(ctx, be, x, y, sig_eq, iso, tag, classes, twin=False, opts=None, extras=None):
+    """(5) CanonicalGraph / SynGraph equality and hash follow the signatures.  On every 17th call (and
+    when a replayed case says so) also the remaining public surface of the value objects."""
     if twin:
         from synkit.Graph.Canon.canon_graph import CanonicalGraph
     else:
@@ -568,8 +599,49 @@ def wrappers(ctx, be, x, y, sig_eq, iso, tag, classes, twin=False, opts=None):
         if be in EXACT and iso and not ceq:
             ctx.violation("exact back-end: CanonicalGraph objects of isomorphic graphs compare unequal", case,
                           {"stream": tag, "wrapper_eq": ceq, "sig_eq": sig_eq}, classes=classes)
+        _wrapper_calls[0] += 1
+        if extras or (extras is None and _wrapper_calls[0] % WRAPPER_EXTRAS_EVERY == 0):
+            case = dict(case, extras=True)
+            wrapper_extras(ctx, be, gc, x, y, sx, sy, cx, cy, sig_eq, ceq, case, tag, classes)
     except Exception as e:
         ctx.violation(f"wrapper construction raises {type(e).__name__}", case, {"stream": tag, "err": str(e)[:200]}, classes=classes)
+
+
+def wrapper_extras(ctx, be, gc, x, y, sx, sy, cx, cy, sig_eq, ceq, case, tag, classes):
+    """The rest of the value objects' public surface, each answer against what the canonicaliser itself
+    returns for the wrapped graph (`a function of the graph`) or against the pair's signatures:
+    CanonicalGraph.original_graph / canonical_graph, the bulk constructor canonicalise_graphs, the alias
+    graph_canonical_hash, SynGraph.raw / canonical, SynGraph(..., canon=False), comparison with a non-wrapper."""
+    from synkit.Graph.syn_graph import SynGraph
+    ctx.count(f"wrapper_extras:{be}")
+
+    def bad(what, **d):
+        ctx.violation(what, case, dict(d, stream=tag), classes=classes)
+    want_x, want_y = norm_graph(gc.make_canonical_graph(x)), norm_graph(gc.make_canonical_graph(y))
+    if cx.original_graph is not x or cy.original_graph is not y:
+        bad("CanonicalGraph.original_graph is not the graph the wrapper was built from")
+    if norm_graph(cx.canonical_graph) != want_x or norm_graph(cy.canonical_graph) != want_y:
+        bad("CanonicalGraph.canonical_graph is not the canonical graph of the wrapped graph (not a function of the graph)")
+    if gc.graph_canonical_hash(x) != gc.canonical_signature(x):
+        bad("graph_canonical_hash (alias) differs from canonical_signature")
+    ws = gc.canonicalise_graphs(g for g in (x, y))
+    hs = [w.canonical_hash for w in ws]
+    if len(ws) != 2 or sorted(hs) != sorted([cx.canonical_hash, cy.canonical_hash]) or \
+            any((w.original_graph is x and w != cx) or (w.original_graph is y and w != cy) for w in ws) or \
+            sorted(id(w.original_graph) for w in ws) != sorted([id(x), id(y)]):
+        bad("canonicalise_graphs: the bulk wrappers are not the wrappers of the individual graphs", bulk=hs, single=[cx.canonical_hash, cy.canonical_hash])
+    if len({w for w in ws}) != (1 if ceq else 2):
+        bad("CanonicalGraph objects in a set do not collapse exactly when they compare equal")
+    if sx.raw is not x or norm_graph(sx.canonical) != want_x or norm_graph(sy.canonical) != want_y:
+        bad("SynGraph.raw / SynGraph.canonical is not the wrapped graph / its canonical graph")
+    lx, ly = SynGraph(x, gc, canon=False), SynGraph(y, gc, canon=False)
+    if (lx == ly) != sig_eq or (lx == sy) != sig_eq or (lx == sx) is not True or hash(lx) != hash(sx) or lx.signature != sx.signature:
+        bad("SynGraph(..., canon=False): equality / hash is not equality of the signatures of the wrapped graphs")
+    if len({sx, sy, lx, ly}) != (1 if sig_eq else 2):
+        bad("SynGraph objects in a set do not collapse exactly when their signatures are equal")
+    for other in (x, "SynGraph", None, cx):
+        if (sx == other) is not False or (cx == other) is not (other is cx):
+            bad("a value object compares equal to something that is not a wrapper of its kind", other=type(other).__name__)
 
 
 # ------------------------------------------------------------------ generators
@@ -771,13 +843,19 @@ def run_case(ctx, batch, c, tag):
     if c["kind"] == "single":
         check_single(ctx, batch, c["backend"], undump(c["graph"]), tag, twin=c.get("twin", False), opts=c.get("opts"))
     elif c["kind"] == "pair":
-        check_pair(ctx, batch, undump(c["x"]), undump(c["y"]), tag, backends=[c["backend"]], opts=c.get("opts"))
+        check_pair(ctx, batch, undump(c["x"]), undump(c["y"]), tag, backends=[c["backend"]], opts=c.get("opts"), extras=c.get("extras"))
     elif c["kind"] == "history":
         check_history(ctx, c, tag, shrink=False)
     elif c["kind"] == "rule":
-        check_rules(ctx, batch, c["backend"], c["a"], c["b"], tag)
+        check_rules(ctx, batch, c["backend"], c["a"], c["b"], tag, c.get("ctor", "smart"))
     elif c["kind"] == "ir":
-        check_ir(ctx, batch, undump(c["graph"]), tag)
+        check_ir(ctx, batch, undump(c["graph"]), tag, c.get("cfg"))
+    elif c["kind"] == "direct":
+        check_direct(ctx, batch, hist_undump(c["graph"]), c["cfg"], tag, flags=c.get("flags"), depths=[c["max_depth"]] if "max_depth" in c else None)
+    elif c["kind"] == "direct-pair":
+        check_direct_pair(ctx, batch, hist_undump(c["x"]), hist_undump(c["y"]), c["cfg"], tag)
+    elif c["kind"] == "class":
+        check_class_case(ctx, batch, c, tag)
     batch.run()
 
 
@@ -915,7 +993,10 @@ def stream_twin(ctx, batch):
         g = random_mol(rnd, rnd.randint(2, 7))
         for be in BACKENDS:
             check_single(ctx, batch, be, g, "twin", twin=True)
-        check_pair(ctx, batch, g, random_copy(rnd, g), "twin", twin=True)
+        check_pair(ctx, batch, g, random_copy(rnd, g), "twin", twin=True, extras=(t % 4 == 0) or None)
+        if t % 4 == 1:  # the option branches of the twin (WL without node attributes)
+            for be in ("wl", "morgan"):
+                check_pair(ctx, batch, g, random_copy(rnd, near_misses(rnd, g)[0]), "twin-options", backends=[be], twin=True, opts={"node_attrs": []})
         ctx.case(["twin", dump(g)], nontrivial=True)
     batch.run()
 
@@ -968,17 +1049,37 @@ RULES = [
 ]
 
 
-def check_rules(ctx, batch, be, a, b, tag):
+_gml_cache = {}
+
+
+def rule_gml(smart):
+    """The reaction as a GML rule text (whole reaction, not only the centre) — the input format of
+    `SynRule.from_gml` and `CanonicalRule`."""
+    if smart not in _gml_cache:
+        from synkit.IO.chem_converter import smart_to_gml
+        _gml_cache[smart] = smart_to_gml(smart, core=False)
+    return _gml_cache[smart]
+
+
+def check_rules(ctx, batch, be, a, b, tag, ctor="smart"):
+    """SynRule built by `from_smart` (ctor="smart") or by the alternative constructor `from_gml` from the
+    GML text of the same reaction (ctor="gml"; then also the GML value object `CanonicalRule`)."""
     from synkit.Rule.syn_rule import SynRule
     gc = canoniser(be)
     try:
-        ra, rb = SynRule.from_smart(a, canonicaliser=gc), SynRule.from_smart(b, canonicaliser=gc)
+        if ctor == "gml":
+            ta, tb = rule_gml(a), rule_gml(b)
+            ra, rb = SynRule.from_gml(ta, canonicaliser=gc), SynRule.from_gml(tb, canonicaliser=gc)
+        else:
+            ra, rb = SynRule.from_smart(a, canonicaliser=gc), SynRule.from_smart(b, canonicaliser=gc)
     except Exception as e:
         ctx.count(f"rule_build_error:{type(e).__name__}")
         return
     eq = (ra == rb)
     case = {"kind": "rule", "backend": be, "a": a, "b": b}
-    if eq != (ra.canonical_smiles == rb.canonical_smiles) or (eq and hash(ra) != hash(rb)):
+    if ctor != "smart":
+        case["ctor"] = ctor
+    if eq != (ra.canonical_smiles == rb.canonical_smiles) or (eq and hash(ra) != hash(rb)) or (ra == "rule") is not False:
         ctx.violation("SynRule equality / hash is not equality of its fragment signatures", case, {"stream": tag})
         return
     if ra.canonical_smiles != (gc.canonical_signature(ra.left.raw), gc.canonical_signature(ra.right.raw)):
@@ -990,7 +1091,7 @@ def check_rules(ctx, batch, be, a, b, tag):
         if len(res) < 2:
             return
         iso = res["l"] and res["r"]
-        ctx.count(f"rule:{be}:{'eq' if eq else 'ne'}:{'iso' if iso else 'noniso'}")
+        ctx.count(f"rule:{be}:{'eq' if eq else 'ne'}:{'iso' if iso else 'noniso'}" + ("" if ctor == "smart" else f":{ctor}"))
         if eq and not iso:
             ctx.violation("SynRule objects compare equal although their fragments are not isomorphic on the covered attributes", case, {"stream": tag})
         if be in EXACT and iso and not eq:
@@ -1007,14 +1108,51 @@ def check_rules(ctx, batch, be, a, b, tag):
             batch.add(iso_req(x, y), h)
         except graphio.Unsupported:
             return
+    if ctor == "gml":
+        check_canonical_rule(ctx, batch, be, gc, ta, tb, case, tag)
+        if be == "wl":  # and the same class of the twin module, with the twin's canonicaliser
+            check_canonical_rule(ctx, batch, be, canoniser(be, True), ta, tb, dict(case, twin=True), tag, twin=True)
+
+
+def check_canonical_rule(ctx, batch, be, gc, ta, tb, case, tag, twin=False):
+    """`CanonicalRule` (GML text in, value object out): equal ⇒ the rule graphs are isomorphic on the covered
+    attributes, ⇔ for the exact back-end; equal objects hash equally; the digest is a function of the text."""
+    if twin:
+        from synkit.Graph.Canon.canon_graph import CanonicalRule
+    else:
+        from synkit.Graph.canon_graph import CanonicalRule
+    try:
+        ca, cb, ca2 = CanonicalRule(ta, gc), CanonicalRule(tb, gc), CanonicalRule(ta, gc)
+        x, y = ca.original_graph, cb.original_graph
+        req = iso_req(x, y)
+    except Exception as e:
+        ctx.count(f"canonical_rule_error:{type(e).__name__}")
+        return
+    if not (ids_ok(x) and ids_ok(y)):
+        return
+    ceq = (ca == cb)
+    classes = sorted(set(input_classes(x) + input_classes(y)))
+    if ca.canonical_hash != ca2.canonical_hash or ca != ca2 or hash(ca) != hash(ca2) or (ceq and hash(ca) != hash(cb)) or (ca == ta) is not False \
+            or ca.original_rule != ta or not onto_1_n(ca.canonical_graph, x.number_of_nodes()):
+        ctx.violation("CanonicalRule: digest / equality / hash is not a function of the rule text, or the canonical graph is not numbered 1..N", case, {"stream": tag}, classes=classes)
+        return
+
+    def on_iso(iso):
+        ctx.count(f"canonical_rule:{be}:{'eq' if ceq else 'ne'}:{'iso' if iso else 'noniso'}")
+        if ceq and not iso:
+            ctx.violation("CanonicalRule objects compare equal although their rule graphs are not isomorphic on the covered attributes", case, {"stream": tag}, classes=classes)
+        if be in EXACT and iso and not ceq:
+            ctx.violation("exact back-end: CanonicalRule objects of isomorphic rule graphs compare unequal", case, {"stream": tag}, classes=classes)
+    batch.add(req, on_iso)
 
 
 def stream_rules(ctx, batch):
     for a, b, c in RULES:
         for be in BACKENDS:
-            check_rules(ctx, batch, be, a, b, "rules-equivalent")
-            check_rules(ctx, batch, be, a, c, "rules-different")
-            check_rules(ctx, batch, be, a, a, "rules-same")
+            for ctor in ("smart", "gml"):
+                check_rules(ctx, batch, be, a, b, "rules-equivalent", ctor)
+                check_rules(ctx, batch, be, a, c, "rules-different", ctor)
+                check_rules(ctx, batch, be, a, a, "rules-same", ctor)
         ctx.case(["rule", a], nontrivial=True)
     batch.run()
 
@@ -1267,6 +1405,15 @@ def option_variants(rnd, be):
     nk2 = perm()
     nk2.insert(rnd.randrange(len(nk2) + 1), "atom_map")
     out.append(("keys-extra", {"node_key": nk2, "node_attrs": list(nk2)}))
+    # (appended last: the history stream draws from the first three)
+    # node_attrs=[]: WL seeds its colours with `element` alone (the `else` branch of _canon_wl), Morgan with the primes
+    # alone, the exact search starts from one cell (`_initial_partition` without node attributes).  Faithfulness,
+    # determinism and soundness do not depend on the order the back-end finds; for the exact back-end the
+    # configuration is coherent when the signature covers no node attribute either (node sort key `()`).
+    if be != "generic":
+        out.append(("empty", {"node_attrs": [], "node_key": []} if be in EXACT else {"node_attrs": []}))
+    # a list-valued attribute among node_attrs (`neighbors`, as ITS graphs carry it; `_freeze` turns it into a tuple)
+    out.append(("superset-list", {"node_attrs": perm() + ["neighbors"]}))
     return out
 
 
@@ -1297,7 +1444,7 @@ def stream_options(ctx, batch):
                     ctx.count("options:keys_on_nodes_and_edges")
                 copies = [random_copy(rnd, g) for _ in range(3)]
                 check_copies(ctx, batch, g, copies, f"options:{vname}", deep_n=1, backends=[be], opts=opts)
-                if vname != "superset":
+                if not vname.startswith("superset"):
                     # (superset: the search separates more than the signature covers, so only copies that
                     # preserve every attribute are in the property's scope)
                     for h in near_misses(rnd, g)[:3]:
@@ -1845,30 +1992,70 @@ def ir_reports(ctx):
     return sum(1 for v in ctx.violations if isinstance(v.get("detail"), dict) and str(v["detail"].get("stream", "")).startswith("ir:"))
 
 
-def ir_break(ctx, g, tag, stage, detail):
+def ir_break(ctx, g, tag, stage, detail, cfg=None):
     """A stage of the real search differs from the model.  If the difference shows up as a violation of
     the property itself — a relabelled copy of the graph with another signature — report that pair;
-    otherwise the correspondence broke without a failing input."""
+    otherwise the correspondence broke without a failing input.  `cfg`: the search object is a directly
+    constructed NautyCanonicalizer with these attribute lists (its own `graph_signature` is the signature)."""
     ctx.count(f"ir:break:{stage}")
     if ir_reports(ctx) >= IR_MAX_REPORTS:
         return
     detail = dict(detail, stream=f"ir:{tag}", stage=stage)
     classes = input_classes(g)
     try:
-        gc = canoniser("nauty")
-        s0 = gc.canonical_signature(g)
+        sigf = canoniser("nauty").canonical_signature if cfg is None else nauty_direct(cfg).graph_signature
+        s0 = sigf(g)
         for _ in range(8):
             c = random_copy(ctx.rnd, g)
-            s1 = gc.canonical_signature(c)
+            s1 = sigf(c)
             if s1 != s0:
                 ctx.violation("exact back-end: isomorphic graphs receive different signatures / canonical graphs",
-                              {"kind": "pair", "backend": "nauty", "x": dump(g), "y": dump(c)},
+                              {"kind": "pair", "backend": "nauty", "x": dump(g), "y": dump(c)} if cfg is None else
+                              {"kind": "direct-pair", "cfg": cfg, "x": dump(g), "y": dump(c)},
                               dict(detail, sig_x=s0, sig_y=s1, found_by="stage of the search differs from the model SynKitModel/NautyIR.lean"), classes=classes)
                 return
     except Exception as e:
         detail["signature_raises"] = type(e).__name__
     ctx.violation(f"correspondence (exact back-end search, stage {stage}): nauty.py differs from the model SynKitModel/NautyIR.lean the "
-                  "invariance theorems are about", {"kind": "ir", "graph": dump(g)}, detail, classes=classes, no_input=True)
+                  "invariance theorems are about", with_cfg({"kind": "ir", "graph": dump(g)}, cfg), detail, classes=classes, no_input=True)
+
+
+# -- directly constructed search objects: NautyCanonicalizer(node_attrs=…, edge_attrs=…)
+IR_CONST = {"element": "C", "aromatic": False, "charge": 0, "hcount": 0, "order": 1.0, "standard_order": 0.0}
+
+
+def with_cfg(case, cfg):
+    if cfg is not None:
+        case["cfg"] = cfg
+    return case
+
+
+def cfg_keys(cfg):
+    return list(cfg.get("node_attrs") or []), list(cfg.get("edge_attrs") or [])
+
+
+def nauty_direct(cfg):
+    """A NEW NautyCanonicalizer built the documented way (None = the constructor's default = no attributes)."""
+    from synkit.Graph.Canon.nauty import NautyCanonicalizer
+    return NautyCanonicalizer(node_attrs=cfg.get("node_attrs"), edge_attrs=cfg.get("edge_attrs"))
+
+
+def project(g, cfg):
+    """The graph as a search over `cfg`'s attribute lists sees it, written for the model (whose lists are
+    fixed: element, aromatic, charge, hcount / order, standard_order): every attribute the configuration
+    leaves out is overwritten by one constant.  A sub-sequence of the model's lists orders keys, signatures
+    and labels exactly as the full lists do on the projected graph (the constants never decide a comparison)."""
+    kn, ke = cfg_keys(cfg)
+    h = g.copy()
+    for _, d in h.nodes(data=True):
+        for k in IR_NODE_ATTRS:
+            if k not in kn:
+                d[k] = IR_CONST[k]
+    for _, _, d in h.edges(data=True):
+        for k in IR_EDGE_ATTRS:
+            if k not in ke:
+                d[k] = IR_CONST[k]
+    return h
 
 
 def short(x, n=600):
@@ -1876,21 +2063,26 @@ def short(x, n=600):
     return s if len(s) <= n else s[:n] + "..."
 
 
-def check_ir(ctx, batch, g, tag):
+def check_ir(ctx, batch, g, tag, cfg=None, after=None):
     """Stage-by-stage comparison of the real `NautyCanonicalizer` (configured by `GraphCanonicaliser(backend="nauty")`)
-    with the model of SynKitModel/NautyIR.lean on one graph."""
+    with the model of SynKitModel/NautyIR.lean on one graph.  With `cfg` the search object is built directly,
+    `NautyCanonicalizer(node_attrs=cfg.node_attrs, edge_attrs=cfg.edge_attrs)` (sub-sequences of the model's lists,
+    None = the constructor default), it runs on `g` itself, and the model runs on `project(g, cfg)`.
+    `after(rep)` is called with the model's answer when every stage agrees."""
     rnd = ctx.rnd
-    why = ir_scope(g)
+    gm = g if cfg is None else project(g, cfg)
+    why = ir_scope(gm)
     if why:
         ctx.count(f"ir:skipped:{why}")
         return False
     n = g.number_of_nodes()
     cap = 400 if ctx.quick else 1500
-    case = {"kind": "ir", "graph": dump(g)}
+    case = with_cfg({"kind": "ir", "graph": dump(g)}, cfg)
+    kn, ke = (IR_NODE_ATTRS, IR_EDGE_ATTRS) if cfg is None else cfg_keys(cfg)
     try:
-        nz = make_canoniser("nauty").nauty
-        if list(nz.node_attrs) != IR_NODE_ATTRS or list(nz.edge_attrs) != IR_EDGE_ATTRS or type(nz).__name__ != "NautyCanonicalizer":
-            ir_break(ctx, g, tag, "configuration", {"node_attrs": list(nz.node_attrs), "edge_attrs": list(nz.edge_attrs)})
+        nz = make_canoniser("nauty").nauty if cfg is None else nauty_direct(cfg)
+        if list(nz.node_attrs) != kn or list(nz.edge_attrs) != ke or type(nz).__name__ != "NautyCanonicalizer":
+            ir_break(ctx, g, tag, "configuration", {"node_attrs": list(nz.node_attrs), "edge_attrs": list(nz.edge_attrs)}, cfg)
             return False
         initial = nz._initial_partition(g)
         refined = nz._refine(g, [list(c) for c in initial])
@@ -1916,22 +2108,26 @@ def check_ir(ctx, batch, g, tag):
         ctx.count(f"ir:impl_raises:{type(e).__name__}")
         if ir_reports(ctx) < IR_MAX_REPORTS:
             ctx.violation(f"exact back-end: the search raises {type(e).__name__} on a graph that carries every covered attribute",
-                          {"kind": "single", "backend": "nauty", "graph": dump(g), "twin": False}, {"stream": f"ir:{tag}", "err": str(e)[:300]},
-                          classes=input_classes(g))
+                          {"kind": "single", "backend": "nauty", "graph": dump(g), "twin": False} if cfg is None else {"kind": "direct", "cfg": cfg, "graph": dump(g)},
+                          {"stream": f"ir:{tag}", "err": str(e)[:300]}, classes=input_classes(g))
         return False
     ctx.count("ir:graphs")
     ctx.count(f"ir:graphs:{tag}")
+    if cfg is not None:
+        ctx.count(f"ir:graphs_direct:nodes={','.join(kn) or '-'}:edges={','.join(ke) or '-'}")
     ctx.count("ir:leaves", len(leaves))
     ctx.count("ir:leaves_le_1" if len(leaves) <= 1 else "ir:leaves_gt_1")
     if len(runs[True][0]) < len(leaves):
         ctx.count("ir:pruning_fired")
-    genc = dump(g)
+    genc = dump(gm)
     state = {"broken": False}
+    keep_n = [i for i, k in enumerate(IR_NODE_ATTRS) if k in kn]
+    keep_e = [i for i, k in enumerate(IR_EDGE_ATTRS) if k in ke]
 
     def brk(stage, detail):
         if not state["broken"]:
             state["broken"] = True
-            ir_break(ctx, g, tag, stage, detail)
+            ir_break(ctx, g, tag, stage, detail, cfg)
 
     def on_ir(rep):
         if rep["initial"] != enc_part(initial):
@@ -1960,6 +2156,8 @@ def check_ir(ctx, batch, g, tag):
         if rep["best"] != rep["best_noprune"]:
             return brk("model: search with pruning = search without", {"best": short(rep["best"]), "best_noprune": short(rep["best_noprune"])})
         ctx.count("ir:final_order_same_as_model" if rep["order"] == perm else "ir:final_order_other_valid_choice")
+        if after is not None and not state["broken"]:
+            after(rep)
     batch.add({"cmd": "canon.ir", "graph": genc, "leaves": True}, on_ir)
     for p, v, sig in sig_q:
         def on_sig(rep, p=p, v=v, sig=sig):
@@ -1968,6 +2166,8 @@ def check_ir(ctx, batch, g, tag):
                 impl = enc_sig(sig)
             except Exception as e:
                 impl = {"unencodable": repr(sig)[:300], "err": str(e)}
+            if cfg is not None:  # the model's lists are the full ones: keep the positions the configuration has
+                rep = dict(rep, attrs=[rep["attrs"][i] for i in keep_n], edges=[[e[i] for i in keep_e] for e in rep["edges"]])
             if rep != impl:
                 brk("_node_signature", {"partition": enc_part(p), "node": int(v), "impl": short(impl), "model": short(rep)})
         batch.add({"cmd": "canon.ir_sig", "graph": genc, "partition": enc_part(p), "node": int(v)}, on_sig)
@@ -2088,6 +2288,594 @@ def stream_ir(ctx, batch):
     batch.run()
 
 
+# ------------------------------------------------------------------ the exact search used directly, with its options
+DIRECT_MAX_REPORTS = 4
+
+
+def direct_reports(ctx):
+    return sum(1 for v in ctx.violations if isinstance(v.get("detail"), dict) and str(v["detail"].get("stream", "")).startswith("direct:"))
+
+
+def direct_form(nz, g, **kw):
+    """`NautyCanonicalizer.canonical_form` mapped onto plain data: {"error": name} or {"shape_ok", "graph", "early",
+    "perm"?, "aut"?, "orbits"?}.  Documented return value: the canonical graph alone when nothing else is asked
+    for, else the tuple (graph, perm?, automorphisms?, orbits?, early_stop).  (The library logs an ERROR line before
+    it raises for a too small max_depth: logging is silenced for the call.)"""
+    import logging
+    flags = [k for k in ("return_perm", "return_aut", "return_orbits") if kw.get(k)]
+    prev = logging.root.manager.disable
+    logging.disable(logging.ERROR)
+    try:
+        res = nz.canonical_form(g, **kw)
+    except BaseException as e:  # StopIteration included
+        if isinstance(e, (KeyboardInterrupt, SystemExit)):
+            raise
+        return {"error": type(e).__name__}
+    finally:
+        logging.disable(prev)
+    if not flags:
+        return {"shape_ok": isinstance(res, nx.Graph), "graph": res, "early": None}
+    ok = isinstance(res, tuple) and len(res) == len(flags) + 2 and isinstance(res[0], nx.Graph) and isinstance(res[-1], bool)
+    out = {"shape_ok": ok}
+    if ok:
+        out["graph"], out["early"] = res[0], res[-1]
+        for k, v in zip(flags, res[1:-1]):
+            out[k[7:]] = v
+    return out
+
+
+def direct_sig_of(nz, g):
+    try:
+        return nz.graph_signature(g)
+    except BaseException as e:
+        if isinstance(e, (KeyboardInterrupt, SystemExit)):
+            raise
+        return {"error": type(e).__name__}
+
+
+def complete_std(g, rule):
+    """standard_order on every edge as ONE function of order (so that graphs that are compared write equal values
+    the same way): pair-valued orders by one of SynKit's rules (diff / zero / arom), scalar orders 0.0 or the order."""
+    if rule in ("diff", "zero", "arom"):
+        return set_std(g, rule)
+    for _, _, d in g.edges(data=True):
+        d["standard_order"] = float(d.get("order", 0)) if rule == "same" else 0.0
+    return g
+
+
+def check_direct_pair(ctx, batch, x, y, cfg, tag):
+    """Kernel agreement for the search's own signature: `graph_signature(x) == graph_signature(y)` ⇔ x and y are
+    isomorphic on the attributes of the configuration (decided by the proven engine on exactly those keys)."""
+    nz = nauty_direct(cfg)
+    kn, ke = cfg_keys(cfg)
+    sx, sy = direct_sig_of(nz, x), direct_sig_of(nz, y)
+    case = {"kind": "direct-pair", "cfg": cfg, "x": dump(x), "y": dump(y)}
+    classes = sorted(set(input_classes(x) + input_classes(y)))
+    if isinstance(sx, dict) or isinstance(sy, dict):
+        if direct_reports(ctx) < DIRECT_MAX_REPORTS:
+            ctx.violation("exact search used directly: graph_signature raises", case, {"stream": f"direct:{tag}", "x": sx, "y": sy}, classes=classes)
+        return
+
+    def on_iso(iso):
+        eq = sx == sy
+        ctx.count(f"direct:pair:{'eq' if eq else 'ne'}:{'iso' if iso else 'noniso'}")
+        if eq == iso or direct_reports(ctx) >= DIRECT_MAX_REPORTS:
+            return
+        ctx.violation("exact search used directly: isomorphic graphs (on the configured attributes) receive different signatures" if iso else
+                      "exact search used directly: equal signatures for graphs that are not isomorphic on the configured attributes",
+                      case, {"stream": f"direct:{tag}", "sig_x": sx, "sig_y": sy}, classes=classes)
+    batch.add(iso_req(x, y, {"node_key": kn, "edge_key": ke}), on_iso)
+
+
+def check_direct(ctx, batch, g, cfg, tag, n_copies=2, misses=(), rule=None, flags=None, depths=None):
+    """`NautyCanonicalizer(node_attrs, edge_attrs)` as a public entry point of its own (observation points
+    canonical_form / graph_signature), on one graph:
+    faithfulness of canonical_form (Lean `spec.isRelabelling` with the bijection read off node tags; `perm` is that
+    bijection), the input is left alone, determinism, invariance of graph_signature and of the canonical graph on
+    the configured attributes under renumbering (`spec.covEq` on the projections), kernel agreement on near misses;
+    the return_* flags change the shape of the answer, not the canonical graph; `max_depth` against the depths of
+    the model's leaf list: max_depth >= deepest leaf ⇒ the full search (same answer, early_stop False); an answer
+    that says early_stop False is the full search's answer; every answer that is returned is a relabelling."""
+    rnd = ctx.rnd
+    nz = nauty_direct(cfg)
+    kn, ke = cfg_keys(cfg)
+    stream = f"direct:{tag}"
+    case = {"kind": "direct", "cfg": cfg, "graph": dump(g)}
+    classes = input_classes(g)
+    n = g.number_of_nodes()
+    if n == 0 and not kn:
+        classes = classes + ["empty_graph_no_node_attrs"]
+    ctx.count("direct:graphs")
+    ctx.count(f"direct:cfg:nodes={','.join(kn) or ('None' if cfg.get('node_attrs') is None else '[]')}:edges={','.join(ke) or ('None' if cfg.get('edge_attrs') is None else '[]')}")
+
+    def bad(what, **detail):
+        if direct_reports(ctx) < DIRECT_MAX_REPORTS:
+            ctx.violation(what, case, dict(detail, stream=stream), classes=classes)
+    gt = tagged(g)
+    before = norm_graph(gt)
+    base = direct_form(nz, gt, return_perm=True)
+    if "error" in base:
+        ctx.count(f"direct:error:{base['error']}")
+        bad(f"exact search used directly: canonical_form raises {base['error']}")
+        return False
+    if not base["shape_ok"]:
+        bad("exact search used directly: canonical_form(return_perm=True) does not return (graph, perm, early_stop)")
+        return False
+    if norm_graph(gt) != before:
+        bad("canonical graph is not the input relabelled by a bijection onto 1..N with all attributes preserved", reason="canonical_form changed the graph it was given")
+        return False
+    cg, perm = base["graph"], list(base["perm"])
+    tags = [d.get("_vid") for _, d in cg.nodes(data=True)]
+    if type(cg) is not type(g) or len(tags) != n or set(map(repr, tags)) != set(map(repr, g.nodes)) or not ids_ok(cg) or base["early"] is not False:
+        bad("canonical graph is not the input relabelled by a bijection onto 1..N with all attributes preserved",
+            reason="node tags lost / duplicated, ids not integers, another graph class, or early_stop without max_depth", canonical_nodes=repr(list(cg.nodes(data=True)))[:300])
+        return False
+    mapping = {d["_vid"]: v for v, d in cg.nodes(data=True)}
+    if [mapping.get(v) for v in perm] != list(range(1, n + 1)):
+        bad("exact search used directly: perm is not the node order the canonical graph was numbered by", perm=perm, mapping=sorted(mapping.items()))
+        return False
+
+    def on_spec(rep):
+        if rep != "ok":
+            bad("canonical graph is not the input relabelled by a bijection onto 1..N with all attributes preserved", **{"spec.isRelabelling": rep})
+    batch.add({"cmd": "spec.isRelabelling", "graph": dump(gt), "canon": dump(cg), "mapping": [[int(v), int(mapping[v])] for v in gt.nodes]}, on_spec)
+    # determinism; the plain call; the tag is not an attribute of the configuration
+    plain = direct_form(nz, gt)
+    s0 = direct_sig_of(nz, g)
+    if "error" in plain or not plain["shape_ok"] or norm_graph(plain["graph"]) != norm_graph(cg) or isinstance(s0, dict) or \
+            s0 != direct_sig_of(nz, g) or s0 != direct_sig_of(nauty_direct(cfg), gt):
+        bad("exact search used directly: canonical_form / graph_signature is not a deterministic function of the graph", plain=str(plain.get("error")), sig=str(s0)[:80])
+        return False
+    # invariance under renumbering / re-insertion, on the attributes of the configuration
+    pcg = dump(project(cg, cfg))
+    for i in range(n_copies if n >= 2 else 0):
+        c = random_copy(rnd, g)
+        sc = direct_sig_of(nz, c)
+        fc = direct_form(nz, c)
+        ctx.count("direct:copies")
+        if sc != s0 or "error" in fc or not fc["shape_ok"] or not ids_ok(fc["graph"]):
+            if direct_reports(ctx) < DIRECT_MAX_REPORTS:
+                ctx.violation("exact search used directly: isomorphic graphs (on the configured attributes) receive different signatures",
+                              {"kind": "direct-pair", "cfg": cfg, "x": dump(g), "y": dump(c)}, {"stream": stream, "sig_x": str(s0)[:80], "sig_y": str(sc)[:80]}, classes=classes)
+            break
+
+        def on_cov(rep, c=c):
+            ctx.count("direct:covEq_checked")
+            if rep is not True and direct_reports(ctx) < DIRECT_MAX_REPORTS:
+                ctx.violation("exact search used directly: isomorphic graphs have different canonical graphs on the configured attributes (spec.covEq)",
+                              {"kind": "direct-pair", "cfg": cfg, "x": dump(g), "y": dump(c)}, {"stream": stream}, classes=classes)
+        batch.add({"cmd": "spec.covEq", "g": pcg, "h": dump(project(fc["graph"], cfg))}, on_cov)
+    for h in misses:
+        if rule is not None:
+            complete_std(h, rule)
+        check_direct_pair(ctx, batch, g, random_copy(rnd, h), cfg, tag)
+    # the return_* flags: another shape, the same canonical graph
+    fl = {k: True for k in ("return_perm", "return_aut", "return_orbits") if rnd.random() < 0.6}
+    if fl.get("return_aut") or fl.get("return_orbits"):
+        fl["remap_aut"] = rnd.random() < 0.5
+    if not any(fl.get(k) for k in ("return_aut", "return_orbits")):
+        fl["return_aut"] = True
+    if flags is not None:  # a replayed case names its flags
+        fl = dict(flags)
+    case_fl = dict(case, flags=fl)
+    r = direct_form(nz, gt, **fl)
+    ctx.count("direct:flags:" + "+".join(sorted(k for k, v in fl.items() if v)))
+    if "error" in r or not r["shape_ok"] or norm_graph(r["graph"]) != norm_graph(cg) or r["early"] is not False or ("perm" in r and list(r["perm"]) != perm):
+        if direct_reports(ctx) < DIRECT_MAX_REPORTS:
+            ctx.violation("exact search used directly: with return_* flags canonical_form does not return (the same canonical graph, [perm], [automorphisms], [orbits], early_stop=False)",
+                          case_fl, {"stream": stream, "flags": fl, "error": r.get("error"), "shape_ok": r.get("shape_ok")}, classes=classes)
+        return False
+    direct_aut_record(ctx, g, cfg, perm, mapping, fl, r)
+    # max_depth, against the model's leaf list (needs the configuration within the model's lists)
+    def after(rep):
+        direct_depths(ctx, batch, nz, g, gt, cfg, perm, norm_graph(cg), rep, case, classes, stream, depths)
+    return check_ir(ctx, batch, g, tag, cfg, after)
+
+
+def direct_aut_record(ctx, g, cfg, perm, mapping, fl, r):
+    """The automorphism list / orbits are outside the property (recorded, not gated): how many of the returned
+    lists are automorphisms on the configured attributes (checked by hand: position-wise substitution perm -> p),
+    and whether the orbits partition the node set."""
+    kn, ke = cfg_keys(cfg)
+    inv = {b: a for a, b in mapping.items()}
+    if "aut" in r:
+        for p in r["aut"]:
+            q = [inv.get(x) for x in p] if fl.get("remap_aut") else list(p)
+            f = dict(zip(perm, q))
+            ok = len(q) == len(perm) and sorted(map(repr, q)) == sorted(map(repr, perm)) and \
+                all(tuple(g.nodes[v].get(k) for k in kn) == tuple(g.nodes[f[v]].get(k) for k in kn) for v in perm) and \
+                all(g.has_edge(f[u], f[v]) and tuple(d.get(k) for k in ke) == tuple(g[f[u]][f[v]].get(k) for k in ke) for u, v, d in g.edges(data=True))
+            ctx.count("direct:recorded:automorphism_ok" if ok else "direct:recorded:automorphism_NOT_ok")
+    if "orbits" in r:
+        seen = [x for o in r["orbits"] for x in o]
+        full = sorted(map(repr, seen)) == sorted(map(repr, (mapping[v] for v in perm) if fl.get("remap_aut") and fl.get("return_aut") else perm))
+        ctx.count("direct:recorded:orbits_partition_nodes" if full else "direct:recorded:orbits_NOT_a_partition")
+
+
+def direct_depths(ctx, batch, nz, g, gt, cfg, perm, cg_norm, rep, case, classes, stream, depths=None):
+    ds = [len(l["prefix"]) for l in rep["leaves"]]
+    if not ds:
+        return
+    d1, D = ds[0], max(ds)
+    ctx.count(f"direct:depth:first_leaf={d1}:deepest={D}")
+    n = g.number_of_nodes()
+    for k in sorted({max(d1 - 1, 0), d1, max(D - 1, 0), D, D + 1} | set(depths or ())):
+        r = direct_form(nz, gt, return_perm=True, max_depth=k)
+        zone = "below_first_leaf" if k < d1 else ("complete" if k >= D else "between")
+        outcome = "error:" + r["error"] if "error" in r else ("bad_shape" if not r["shape_ok"] else ("early" if r["early"] else "full"))
+        ctx.count(f"direct:max_depth:{zone}:{outcome}")
+        dcase = dict(case, max_depth=k)
+        det = {"stream": stream, "max_depth": k, "first_leaf_depth": d1, "deepest_leaf_depth": D, "outcome": outcome}
+        if direct_reports(ctx) >= DIRECT_MAX_REPORTS:
+            return
+        if "error" in r:
+            if k >= D:
+                ctx.violation(f"exact search used directly: canonical_form(max_depth={k}) raises {r['error']} although no leaf of the search tree lies deeper than {D}",
+                              dcase, det, classes=classes)
+            continue
+        if not r["shape_ok"]:
+            ctx.violation("exact search used directly: canonical_form(return_perm=True, max_depth=k) does not return (graph, perm, early_stop)", dcase, det, classes=classes)
+            continue
+        pk = list(r["perm"])
+        if (k >= D and r["early"]) or (not r["early"] and (pk != perm or norm_graph(r["graph"]) != cg_norm)):
+            ctx.violation("exact search used directly: max_depth at least the depth of the deepest leaf (or an answer with early_stop False) must give the answer of the unlimited search",
+                          dcase, dict(det, perm=pk, unlimited_perm=perm), classes=classes)
+            continue
+        # an early answer is still a canonical graph of the input: a relabelling by `perm`
+        tags = {v: d.get("_vid") for v, d in r["graph"].nodes(data=True)}
+        if sorted(map(repr, pk)) != sorted(map(repr, g.nodes)) or [tags.get(i + 1) for i in range(n)] != pk:
+            ctx.violation("canonical graph is not the input relabelled by a bijection onto 1..N with all attributes preserved", dcase, dict(det, perm=pk), classes=classes)
+            continue
+        if r["early"]:
+            def on_spec(rep2, dcase=dcase, det=det):
+                if rep2 != "ok":
+                    ctx.violation("canonical graph is not the input relabelled by a bijection onto 1..N with all attributes preserved", dcase, dict(det, **{"spec.isRelabelling": rep2}), classes=classes)
+            batch.add({"cmd": "spec.isRelabelling", "graph": dump(gt), "canon": dump(r["graph"]), "mapping": [[int(v), pk.index(v) + 1] for v in gt.nodes]}, on_spec)
+
+
+def direct_configs(rnd):
+    """Attribute lists of a directly built search object: the constructor default (None, None), empty lists, and
+    sub-sequences of the lists GraphCanonicaliser passes (the model's lists)."""
+    sub = lambda xs: [x for x in xs if rnd.random() < 0.5]
+    r = rnd.random()
+    if r < 0.2:
+        return {"node_attrs": None, "edge_attrs": None}
+    if r < 0.35:
+        return {"node_attrs": [], "edge_attrs": list(IR_EDGE_ATTRS)}
+    if r < 0.5:
+        return {"node_attrs": list(IR_NODE_ATTRS), "edge_attrs": list(IR_EDGE_ATTRS)}
+    if r < 0.6:
+        return {"node_attrs": ["element"], "edge_attrs": ["order"]}
+    return {"node_attrs": sub(IR_NODE_ATTRS), "edge_attrs": rnd.choice([None, ["order"], ["order"], list(IR_EDGE_ATTRS), sub(IR_EDGE_ATTRS)])}
+
+
+def stream_direct(ctx, batch):
+    """NautyCanonicalizer built directly (as documented: node_attrs / edge_attrs optional, default none) and its
+    options return_perm / return_aut / remap_aut / return_orbits / max_depth."""
+    rnd, q = ctx.rnd, ctx.quick
+    fixed = [({"node_attrs": None, "edge_attrs": None}, mk([], [])),
+             ({"node_attrs": list(IR_NODE_ATTRS), "edge_attrs": list(IR_EDGE_ATTRS)}, mk([], [])),
+             ({"node_attrs": None, "edge_attrs": None}, mk([(3, atom("O"))], [])),
+             ({"node_attrs": [], "edge_attrs": ["order"]}, mk([(3, atom("O")), (1, atom("C"))], [(3, 1, {"order": 1.0, "standard_order": 0.0})]))]
+    for cfg, g in fixed:
+        check_direct(ctx, batch, g, cfg, "fixed")
+        ctx.case(["direct", cfg, dump(g)], nontrivial=False)
+    fams = symmetric_families(True)
+    names = ["C4", "C5", "C6", "K23", "star4", "2xC3", "2xP2", "P2+P3", "C3+C4", "kekule-C6", "B.C3+C4"] + ([] if q else ["Q3", "K33", "prism", "K4", "C8", "B-C3+C5"])
+    plan = [("symmetric", name) for name in (rnd.sample(names, 5) if q else names)] + [("random", None)] * (26 if q else 300) + [("twin-regular", None)] * (3 if q else 30) + \
+        [("regular", None)] * (6 if q else 40)  # one cell, several orbits: leaves at different depths (max_depth between first and deepest leaf)
+    for t, (kind, name) in enumerate(plan):
+        cfg = direct_configs(rnd)
+        its = False
+        if kind == "symmetric":
+            g = fams[name].copy()
+            if rnd.random() < 0.5:
+                g = near_misses(rnd, g)[0]
+        elif kind == "twin-regular":
+            g = twin_regular(rnd, True)
+        elif kind == "regular":
+            g = random_copy(rnd, uniform_graph(nx.random_regular_graph(3, rnd.choice([8, 8, 10]), seed=rnd)))
+        else:
+            its = rnd.random() < 0.35
+            g = random_mol(rnd, rnd.choice([2, 3, 4, 5, 5, 6, 6, 7]), its=its)
+        rule = rnd.choice(["diff", "zero", "arom"]) if its else rnd.choice(["same", "const0"])
+        complete_std(g, rule)
+        misses = near_misses(rnd, g)[:2 if q else 4] if kind not in ("twin-regular", "regular") else []
+        check_direct(ctx, batch, g, cfg, kind, n_copies=2 if q else 4, misses=misses, rule=rule)
+        ctx.case(["direct", cfg, dump(g)], nontrivial=g.number_of_nodes() >= 2,
+                 sample={"stream": "direct", "cfg": cfg, "graph": dump(g)} if t == 6 else None)
+        if t % 40 == 39:
+            batch.run()
+        if direct_reports(ctx) >= DIRECT_MAX_REPORTS or full(ctx):
+            break
+    batch.run()
+
+
+# ------------------------------------------------------------------ the other networkx graph classes
+GRAPH_CLASSES = {"DiGraph": nx.DiGraph, "MultiGraph": nx.MultiGraph, "MultiDiGraph": nx.MultiDiGraph}
+CLASS_MAX_REPORTS = 6
+
+
+def class_reports(ctx):
+    return sum(1 for v in ctx.violations if isinstance(v.get("detail"), dict) and str(v["detail"].get("stream", "")).startswith("classes:")
+               and not set(v.get("classes", ())) & {"digraph_exact_backend", "multigraph_exact_backend", "multigraph_wl_not_implemented"})
+
+
+def class_undump(j, cls):
+    g = GRAPH_CLASSES[cls]()
+    for n, a in j["nodes"]:
+        g.add_node(n, **{k: graphio.unval(v) for k, v in a.items()})
+    for u, v, a in j["edges"]:
+        g.add_edge(u, v, **{k: bond_float(k, graphio.unval(x)) for k, x in a.items()})
+    return g
+
+
+def to_class(rnd, g0, cls):
+    """A graph of another networkx class over the molecule-like graph g0: arcs in one or both directions
+    (the two arcs of a pair may carry different orders), parallel edges with equal or different orders."""
+    g = GRAPH_CLASSES[cls]()
+    for v, d in g0.nodes(data=True):
+        g.add_node(v, **dict(d))
+    other = lambda o: (2.0 if o != 2.0 else 1.0) if not isinstance(o, tuple) else (o[1], o[0])
+    for u, v, d in g0.edges(data=True):
+        ends = [(u, v)]
+        if g.is_directed():
+            r = rnd.random()
+            ends = [(u, v)] if r < 0.4 else [(v, u)] if r < 0.8 else [(u, v), (v, u)]
+        for k, (a, b) in enumerate(ends):
+            dd = dict(d)
+            if k == 1 and rnd.random() < 0.5:
+                dd["order"] = other(dd.get("order", 1.0))
+            g.add_edge(a, b, **dd)
+            if g.is_multigraph() and rnd.random() < 0.3:
+                dd2 = dict(dd)
+                if rnd.random() < 0.6:
+                    dd2["order"] = other(dd2.get("order", 1.0))
+                g.add_edge(a, b, **dd2)
+    return g
+
+
+def class_copy(rnd, g):
+    """Renumbered copy with shuffled node / edge insertion order (undirected classes: random orientation too)."""
+    n = g.number_of_nodes()
+    pi = dict(zip(g.nodes, rnd.sample(range(0, 3 * n + 3), n)))
+    h = type(g)()
+    no = list(g.nodes)
+    rnd.shuffle(no)
+    for v in no:
+        h.add_node(pi[v], **dict(g.nodes[v]))
+    es = list(g.edges(data=True))
+    rnd.shuffle(es)
+    for u, v, d in es:
+        if not g.is_directed() and rnd.random() < 0.5:
+            u, v = v, u
+        h.add_edge(pi[u], pi[v], **dict(d))
+    return h
+
+
+def class_near_misses(rnd, g):
+    """One arc reversed, one (parallel) edge's order changed, one edge removed, one node attribute changed —
+    isomorphic or not, the engine decides."""
+    out = []
+    es = list(g.edges(keys=True)) if g.is_multigraph() else list(g.edges)
+    if es:
+        e = rnd.choice(es)
+        d = dict(g.edges[e])
+        if g.is_directed():
+            h = g.copy()
+            h.remove_edge(*e)
+            h.add_edge(e[1], e[0], **d)
+            out.append(h)
+        h = g.copy()
+        o = d.get("order", 1.0)
+        h.edges[e]["order"] = (o[1], o[0]) if isinstance(o, tuple) else (2.0 if o != 2.0 else 1.0)
+        out.append(h)
+        h = g.copy()
+        h.remove_edge(*rnd.choice(es))
+        out.append(h)
+    if g.number_of_nodes():
+        h = g.copy()
+        d = h.nodes[rnd.choice(list(h.nodes))]
+        d["element"] = "N" if d.get("element") != "N" else "O"
+        out.append(h)
+    return out
+
+
+def class_encode(g):
+    """The (multi)(di)graph as a simple undirected node-labelled graph for the proven engine: one extra node per
+    undirected edge (kind `e`), two per arc (kind `t` at the tail, `h` at the head), carrying the edge's covered
+    attributes; original nodes have kind `v`.  Two graphs of one class are isomorphic on the covered attributes
+    (direction and multiplicity respected) iff their encodings are isomorphic on NODE_KEYS + kind + EDGE_KEYS."""
+    H = nx.Graph()
+    blank_e = {k: ATTR_DEFAULT[k] for k in EDGE_KEYS}
+    for v, d in g.nodes(data=True):
+        H.add_node(int(v), kind="v", **{k: d.get(k, ATTR_DEFAULT[k]) for k in NODE_KEYS}, **blank_e)
+    nxt = max([int(v) for v in g.nodes], default=0) + 1
+    blank_n = {k: ATTR_DEFAULT[k] for k in NODE_KEYS}
+    for u, v, d in g.edges(data=True):
+        ea = {k: d.get(k, ATTR_DEFAULT[k]) for k in EDGE_KEYS}
+        if g.is_directed():
+            H.add_node(nxt, kind="t", **blank_n, **ea)
+            H.add_node(nxt + 1, kind="h", **blank_n, **ea)
+            H.add_edge(int(u), nxt)
+            H.add_edge(nxt, nxt + 1)
+            H.add_edge(nxt + 1, int(v))
+            nxt += 2
+        else:
+            H.add_node(nxt, kind="e", **blank_n, **ea)
+            H.add_edge(int(u), nxt)
+            H.add_edge(nxt, int(v))
+            nxt += 1
+    return H
+
+
+CLASS_ISO_OPTS = {"node_key": NODE_KEYS + ["kind"] + EDGE_KEYS, "edge_key": []}
+
+
+def class_faithful(gt, cg):
+    """The property's relabelling predicate, evaluated by hand for graph classes the Lean model does not have:
+    same class, node tags give a bijection onto 1..N, node attribute dicts equal, the multiset of
+    (end points [ordered for arcs], attribute dict) equal under the bijection.  Returns a reason or None."""
+    from collections import Counter
+    if type(cg) is not type(gt):
+        return f"graph class {type(gt).__name__} became {type(cg).__name__}"
+    n = gt.number_of_nodes()
+    tags = [d.get("_vid") for _, d in cg.nodes(data=True)]
+    if len(tags) != n or set(map(repr, tags)) != set(map(repr, gt.nodes)) or not onto_1_n(cg, n):
+        return "node tags lost / duplicated or canonical ids are not 1..N"
+    m = {d["_vid"]: v for v, d in cg.nodes(data=True)}
+    for v, d in gt.nodes(data=True):
+        if dict(cg.nodes[m[v]]) != dict(d):
+            return f"attributes of node {v!r} changed"
+    ends = (lambda u, v: (u, v)) if gt.is_directed() else (lambda u, v: tuple(sorted((u, v))))
+    froz = lambda d: tuple(sorted((str(k), repr(x)) for k, x in d.items()))
+    if Counter((ends(m[u], m[v]), froz(d)) for u, v, d in gt.edges(data=True)) != Counter((ends(u, v), froz(d)) for u, v, d in cg.edges(data=True)):
+        return "edges (end points, direction, multiplicity, attribute dicts) not preserved"
+    return None
+
+
+def class_norm(g):
+    froz = lambda d: sorted((str(k), repr(x)) for k, x in d.items())
+    ends = (lambda u, v: [repr(u), repr(v)]) if g.is_directed() else (lambda u, v: sorted([repr(u), repr(v)]))
+    return [type(g).__name__, sorted([repr(v), froz(d)] for v, d in g.nodes(data=True)), sorted([ends(u, v), froz(d)] for u, v, d in g.edges(data=True))]
+
+
+def class_classes(cls, be, kind):
+    """Names for deviations that are consequences of the class alone (reported as findings):
+    the exact search reads `G[u][v]` as an attribute dict and `has_edge(u, v)` for u before v only — on a
+    multigraph the edge attributes, on a digraph half of the directions, are invisible to it;
+    networkx's WL hashing is not implemented for multigraphs."""
+    if kind == "error" and be == "wl" and cls.startswith("Multi"):
+        return ["multigraph_wl_not_implemented"]
+    if kind == "exact" and be in EXACT:
+        return ["multigraph_exact_backend"] if cls.startswith("Multi") else ["digraph_exact_backend"]
+    return []
+
+
+def class_obs(be, g):
+    gc = canoniser(be)
+    try:
+        gt = tagged(g)
+        before = class_norm(gt)
+        cg = gc.make_canonical_graph(gt)
+        sig = gc.canonical_signature(g)
+        return {"gt": gt, "cg": cg, "sig": sig, "sig2": gc.canonical_signature(gt), "sig3": gc.canonical_signature(g),
+                "text": gc._serialise(cg), "changed": class_norm(gt) != before}
+    except Exception as e:
+        return {"error": type(e).__name__}
+
+
+def check_class_single(ctx, be, cls, g, tag):
+    """Faithfulness, class preservation, determinism for one graph of class `cls`; returns the signature or None."""
+    case = {"kind": "class", "cls": cls, "backend": be, "graph": dump(g)}
+    o = class_obs(be, g)
+    stream = f"classes:{tag}"
+    ctx.count(f"classes:single:{cls}:{be}")
+    if "error" in o:
+        ctx.count(f"classes:error:{cls}:{be}:{o['error']}")
+        known = class_classes(cls, be, "error")
+        if known or class_reports(ctx) < CLASS_MAX_REPORTS:
+            if not known or not any(set(v.get("classes", ())) & set(known) for v in ctx.violations):
+                ctx.violation(f"canonicalisation of a {cls} raises {o['error']}", case, {"stream": stream}, classes=known)
+        return None
+    why = "canonicalisation changed the graph it was given" if o["changed"] else class_faithful(o["gt"], o["cg"])
+    if why:
+        if class_reports(ctx) < CLASS_MAX_REPORTS:
+            ctx.violation("canonical graph is not the input relabelled by a bijection onto 1..N with all attributes preserved", case,
+                          {"stream": stream, "reason": why, "canonical_nodes": repr(list(o["cg"].nodes))[:200], "canonical_edges": repr(list(o["cg"].edges(data=True)))[:300]})
+        return None
+    if not (o["sig"] == o["sig2"] == o["sig3"]) or o["sig2"] != hashlib.sha256(o["text"].encode()).hexdigest()[:32]:
+        if class_reports(ctx) < CLASS_MAX_REPORTS:
+            ctx.violation("signature is not a deterministic function of the graph (two calls differ, an uncovered node tag matters, or it is not the digest of the serialised canonical graph)",
+                          case, {"stream": stream})
+        return None
+    return o["sig"]
+
+
+def check_class_pair(ctx, batch, be, cls, x, y, tag, iso=None, sx=False):
+    """Kernel agreement on a pair of graphs of one class; `iso` True when y is a copy of x by construction, else
+    the proven engine decides on the encodings.  `sx`: what check_class_single returned for x (when already run)."""
+    if sx is False:
+        sx = check_class_single(ctx, be, cls, x, tag)
+    if sx is None:
+        return
+    sy = check_class_single(ctx, be, cls, y, tag)
+    if sy is None:
+        return
+    case = {"kind": "class", "cls": cls, "backend": be, "x": dump(x), "y": dump(y)}
+    stream = f"classes:{tag}"
+
+    def on_iso(iso):
+        eq = sx == sy
+        ctx.count(f"classes:pair:{cls}:{be}:{'eq' if eq else 'ne'}:{'iso' if iso else 'noniso'}")
+        if eq and not iso and class_reports(ctx) < CLASS_MAX_REPORTS:
+            ctx.violation("equal signatures for graphs that are not isomorphic on the covered attributes", case, {"stream": stream, "sig": sx})
+        if be in EXACT and iso and not eq:
+            known = class_classes(cls, be, "exact")
+            if not any(set(v.get("classes", ())) & set(known) for v in ctx.violations):
+                ctx.violation("exact back-end: isomorphic graphs receive different signatures / canonical graphs", case, {"stream": stream, "sig_x": sx, "sig_y": sy}, classes=known)
+    if iso is True:
+        on_iso(True)
+    else:
+        batch.add(iso_req(class_encode(x), class_encode(y), CLASS_ISO_OPTS), on_iso)
+
+
+def check_class_case(ctx, batch, c, tag):
+    if "graph" in c:
+        check_class_single(ctx, c["backend"], c["cls"], class_undump(c["graph"], c["cls"]), tag)
+    else:
+        check_class_pair(ctx, batch, c["backend"], c["cls"], class_undump(c["x"], c["cls"]), class_undump(c["y"], c["cls"]), tag)
+
+
+def stream_classes(ctx, batch):
+    """GraphCanonicaliser on nx.DiGraph / nx.MultiGraph / nx.MultiDiGraph (class docstring: `All returned graphs are
+    of the same class as the input, so multigraphs and digraphs are preserved`)."""
+    rnd, q = ctx.rnd, ctx.quick
+    one = {"order": 1.0}
+    # the smallest inputs on which the exact back-end is not invariant (all atoms carbon)
+    fixed = [("DiGraph", [(1, 0, one), (0, 3, one), (1, 2, one)], 4), ("MultiGraph", [(0, 2, {"order": 1.0}), (1, 2, {"order": 2.0})], 3)]
+    for cls, es, n in fixed:
+        g = GRAPH_CLASSES[cls]()
+        for i in range(n):
+            g.add_node(i, **atom())
+        for u, v, d in es:
+            g.add_edge(u, v, **d)
+        for perm in itertools.permutations(range(n)):
+            c = type(g)()
+            for i in range(n):
+                c.add_node(perm[i], **atom())
+            for u, v, d in es:
+                c.add_edge(perm[u], perm[v], **d)
+            for be in BACKENDS:
+                if be in EXACT or perm == tuple(range(n))[::-1]:
+                    check_class_pair(ctx, batch, be, cls, g, c, "fixed", iso=True)
+        ctx.case(["classes", cls, dump(g)], nontrivial=True)
+    for cls in GRAPH_CLASSES:
+        for t in range(7 if q else 80):
+            its = rnd.random() < 0.3
+            g0 = random_mol(rnd, rnd.choice([2, 3, 3, 4, 4, 5]), its=its, extra=rnd.random() < 0.5)
+            if t % 7 == 6:
+                g0 = symmetric_families(True)[rnd.choice(["C4", "C6", "K23", "2xC3", "star4"])].copy()
+            g = to_class(rnd, g0, cls)
+            ctx.count(f"classes:graphs:{cls}")
+            ctx.count(f"classes:edges_per_graph:{cls}", g.number_of_edges())
+            if its:
+                set_std(g, "diff")
+            copies = [class_copy(rnd, g) for _ in range(2 if q else 3)]
+            misses = [class_copy(rnd, set_std(h, "diff") if its else h) for h in class_near_misses(rnd, g)[:2 if q else 4]]
+            for be in BACKENDS:
+                sg = check_class_single(ctx, be, cls, g, "base")
+                for c in copies:
+                    check_class_pair(ctx, batch, be, cls, g, c, "copy", iso=True, sx=sg)
+                for h in misses:
+                    check_class_pair(ctx, batch, be, cls, g, h, "near-miss", sx=sg)
+            ctx.case(["classes", cls, dump(g)], nontrivial=g.number_of_nodes() >= 2,
+                     sample={"stream": "classes", "class": cls, "graph": dump(g)} if t == 1 and cls == "MultiDiGraph" else None)
+        batch.run()
+        if full(ctx):
+            return
+
+
 def run(ctx):
     ctx.trusted = [
         "Lean 4.33 kernel; axioms of the property theorems as listed in obligation_list",
@@ -2107,12 +2895,21 @@ def run(ctx):
         "answers '' for the partial label (pruning off); no step of the search is re-implemented in the harness",
         "Driver/Canon.lean JSON codec, harness/graphio.py encoder, harness/props/c08.py adapter (node tags to read off the bijection; parser of the "
         "serialised text)",
+        "stream direct: project() (left-out attributes overwritten by constants) and the argument that sub-sequences of the model's attribute lists order keys, "
+        "signatures and labels as the full lists do on the projected graph; stream classes: class_faithful / class_encode of harness/props/c08.py",
         "history stream: os.fork gives a process image in which the library has been imported but never called; pickle round-trips a networkx graph "
         "exactly (dict orders included)",
     ]
     ctx.assumptions = [
         "node ids are non-negative integers; covered attributes hold one Python type per key (str / int / bool / float or pair of floats), bond orders multiples of 1/2",
-        "graphs are simple undirected networkx.Graph objects (no multigraph / digraph)",
+        "the Lean model has simple undirected graphs; for nx.DiGraph / nx.MultiGraph / nx.MultiDiGraph inputs (stream classes) the relabelling predicate "
+        "(same class, bijection onto 1..N, node attribute dicts, multiset of (end points [ordered for arcs], attribute dict)) is evaluated in the harness and "
+        "isomorphism is decided by the proven engine on an encoding (one extra node per undirected edge, two per arc, carrying the edge's covered attributes); no self-loops",
+        "NautyCanonicalizer used directly (stream direct): attribute lists are sub-sequences of the model's lists (or the constructor default None); the model runs on the "
+        "graph with the left-out attributes overwritten by constants; what max_depth must return is derived from the leaf depths of the model's unpruned search tree only "
+        "(max_depth >= deepest leaf: the full answer; an answer flagged early_stop=False: the full answer; any returned graph: a relabelling) — which of the in-between "
+        "depths stop early depends on pruning and is recorded, not gated; the content of the automorphism / orbit lists is outside the property (recorded, not gated)",
+        "GraphCanonicaliser(backend='nauty', node_attrs=[]) is compared as an exact back-end only together with a node sort key that covers no node attribute",
         "standard_order is absent or a function of order, as in every graph SynKit builds (the other case is the classified stream std-independent)",
         "graphs that are compared with each other write a value the same way (int 0 vs float 0.0 print differently in the serialised text: pools and near "
         "misses keep one standard_order rule per comparison); every edge carries `order` (the wl back-end reads it unconditionally)",
@@ -2144,7 +2941,18 @@ def run(ctx):
         "nitrogen twins (the partial-label pruning fires), symmetry breakers, spectators, a few graphs whose standard_order is independent of order; half of them renumbered onto sparse ids with shuffled insertion "
         "order; standard_order, where no edge has it, completed as a function of order; per graph 2 probe partitions (unit / one cell individualised / random "
         "cells) x 2 nodes for _node_signature and _refine; graphs lacking a covered attribute, or writing one value as 0 and 0.0, counted and skipped; searches "
-        "with more than 400 (1500) leaves skipped.")
+        "with more than 400 (1500) leaves skipped. "
+        "DIRECT (NautyCanonicalizer built directly; ~44 (380) graphs): empty graph / one node / one bond under the default and the full configuration, then 5 (17) symmetric "
+        "families (half with one label changed), 26 (300) random molecule-like / ITS-style graphs on 2-7 nodes, 3 (30) twin-regular and 6 (40) renumbered 3-regular carbon "
+        "skeletons on 8-10 nodes (leaves at different depths), each under a drawn configuration: (None, None) 20 %, ([], both edge keys) 15 %, the full lists 15 %, "
+        "([element], [order]) 10 %, else random sub-sequences (edge list also None); standard_order completed as one function of order; per graph 2 (4) renumbered copies, "
+        "2 (4) near misses, one drawn return_* flag set (always return_aut or return_orbits, remap_aut half of the time), max_depth in {first-1, first, deepest-1, deepest, "
+        "deepest+1} of the model's leaf depths. CLASSES: per class (DiGraph, MultiGraph, MultiDiGraph) 7 (80) graphs derived from random molecule-like graphs on 2-5 nodes "
+        "(every 7th a symmetric family): arcs one way 80 % / both ways 20 % (second arc with another order half of the time), parallel edges 30 % (another order 60 %), "
+        "x 4 back-ends x 2 (3) renumbered copies + 2 (4) near misses (arc reversed, one edge's order changed, edge removed, element changed); first the two smallest inputs on "
+        "which the exact back-end is not invariant (DiGraph 1->0->3, 1->2; MultiGraph path with orders 1, 2) under all numberings. OPTIONS additionally: node_attrs=[] "
+        "(wl, morgan; nauty with node sort key ()), node_attrs + [neighbors]. RULES additionally through SynRule.from_gml / CanonicalRule on the GML text of the whole reaction. "
+        "Value-object surface (original_graph, canonicalise_graphs, SynGraph.canonical, canon=False, non-wrapper comparison) on every 17th wrapper pair.")
     ctx.nontrivial_rule = "distinct as a JSON value of (stream, graph[, variant]); non-trivial when the graph has >= 2 nodes"
     pristine()  # forked before the first canonicalisation call of this process
     try:
@@ -2161,7 +2969,7 @@ def _run(ctx):
         run_case(ctx, batch, c["case"] if "case" in c else c, "regress")
     ctx.count("regress_cases", len(reg))
     for stream in (stream_ir, stream_shapes, stream_symmetric, stream_tiny, stream_random, stream_twin, stream_malformed, stream_std, stream_rules,
-                   stream_options, stream_history):
+                   stream_options, stream_history, stream_direct, stream_classes):
         if full(ctx):
             break
         _t = time.time()
